@@ -337,6 +337,18 @@ def run(ctx):
         if d:
             ctx.violation(f"parse: {d}", {"kind": "parse", "case": c})
     ctx.sample({"parse": pcases[len(pcases) // 2]})
+    # the binding is live: one perturbed expected answer of each language must be reported by the replay
+    import copy
+    ctl = copy.deepcopy(next(c for c in cases if any(t["k"] == "rng" for t in c["atoms"])))
+    next(t for t in ctl["atoms"] if t["k"] == "rng")["b"] += 1
+    ctl2 = copy.deepcopy(next(c for c in pcases if c["verdict"] == "ok" and len(c["vals"]) >= 2))
+    ctl2["vals"] = ctl2["vals"][:-1]
+    ctl3 = copy.deepcopy(next(c for c in pcases if c["verdict"] == "small"))
+    ctl3["verdict"] = "big"
+    for name, d in (("repr/last", run_repr(ctl)), ("parse/values", run_parse((1, ctl2))), ("parse/verdict", run_parse((1, ctl3)))):
+        if not d:
+            raise tlc.TlcError(f"negative control {name}: a perturbed expected answer was accepted by the replay")
+        ctx.notes.setdefault("negative_controls_rejected", {})[name] = d[:160]
     ctx.require_actions(["Next"])
     ctx.exhaustive = True
     ctx.rule = ("TLC enumerates every array (A) / item list with bounds (B) within the constants of RangeExpr.tla and checks the "
